@@ -41,6 +41,7 @@ LEVEL = {
 }
 LEVEL["decided"] += ' (R08.7) inside the block every tool leaves a shared iterator where the stdlib tool would (tool tables: yields, items taken, end); (R08.8) no tool reads ahead of what it yields (R05.3, shared).'
 LEVEL["decided"] += ' (R08.9) a groupby group the parent has moved past leaves the shared iterator alone (R16.1, shared); (R08.10) a finishing tee child unregisters its own buffer by identity (R04.5, shared).'
+LEVEL["decided"] += ' (R08.11) no argument of a tool is singled out by its type or length (R03.2, shared).'
 LEVEL["technique"] += '; tool tables shared'
 
 CTX = "asynctools._ScopedAsyncIteratorContext"
